@@ -172,6 +172,7 @@ _MF = [f"self._transformation.{k}" for k in _T6]
 _IF = [f"self._inverted.{k}" for k in _T6]
 _TF = [f"transformation[{i}]" for i in range(6)]
 _LAST = "self._outPen.comp_t[len(self._outPen.comp_t) - 1]"
+_TPEN_INIT_FRAME = ["self._outPen", "self._transformation", "self._inverted", "self.modified"]  # the constructor writes the NEW pen only
 
 contract(
     "ufo2ft.filters.transformations:TransformPointPen.__init__",
@@ -179,6 +180,7 @@ contract(
     params={"self": Ref("C15_TPen"), "outPointPen": Ref("C15_OutPen"), "transformation": Ref("Transform"), "modified": Opt(Set(STR))},
     globals=_SUPER,
     requires=["transformation.xx * transformation.yy - transformation.yx * transformation.xy != 0"],  # set_context only builds invertible matrices (scale != 0): see its contract
+    modifies=_TPEN_INIT_FRAME,
     ensures={
         "matrix": "self._transformation == transformation and self._outPen == outPointPen",
         # _inverted is the inverse matrix: exactly the six terms lemma C15.inverse is about
@@ -203,6 +205,7 @@ contract(
     params={"self": Ref("C15_TPen"), "outPointPen": Ref("C15_OutPen"), "transformation": Ref("Transform"), "modified": Opt(Set(STR))},
     globals=_SUPER,
     requires=["transformation.xx * transformation.yy - transformation.yx * transformation.xy != 0"],
+    modifies=_TPEN_INIT_FRAME,
     ensures={
         "matrix": "self._transformation == transformation and self._outPen == outPointPen",
         "modified-set": "self.modified is not None and implies(modified is not None, self.modified == modified)",
@@ -386,6 +389,12 @@ def _carried(c, a):
     return f"({c}.t_xx * {a}.x + {c}.t_yx * {a}.y + {c}.t_dx, {c}.t_xy * {a}.x + {c}.t_yy * {a}.y + {c}.t_dy)"
 
 
+def _carried_d(c, a):
+    """_carried written with the symbol dot2 (contracts/c02.py: dot2(a, b, c, d) = a*b + c*d; a product under a quantifier makes the
+    solvers unreliable, so the quantified clause carries the symbol and the arithmetic is done once, at the hint, on ground terms)"""
+    return f"(dot2({c}.t_xx, {a}.x, {c}.t_yx, {a}.y) + {c}.t_dx, dot2({c}.t_xy, {a}.x, {c}.t_yy, {a}.y) + {c}.t_dy)"
+
+
 def _first(c, body):
     """`body(m)` holds for the FIRST anchor named anchor_name of component c's base glyph"""
     A = f"glyphSet.glyphs[{c}.baseGlyph].anchors"
@@ -439,6 +448,7 @@ _c0 = Val(Ref("C15_AComponent"), z3.Const("comp0", T.RefSort))
 _c1 = Val(Ref("C15_AComponent"), z3.Const("comp1", T.RefSort))
 
 # (a) ONE base component (the common case: a composite over one base glyph)
+_A0 = "glyphSet.glyphs[components[0].baseGlyph].anchors"
 contract(
     "ufo2ft.filters.propagateAnchors:_get_anchor_data",
     name="one-component",
@@ -447,13 +457,30 @@ contract(
     modifies=["anchor_data"],
     requires=["components[0].baseGlyph in glyphSet.glyphs"],  # callers only pass components whose base was found in the glyph set
     ensures={
-        "carried-by-full-matrix": f"implies({_has('components[0]')}, anchor_name in anchor_data and " + _first("components[0]", "anchor_data[anchor_name] == " + _carried("components[0]", "{a}")) + ")",
+        # stored under anchor_name, at the image of the FIRST base anchor of that name under the component's full matrix
+        # (dot2(a, b, c, d) = a*b + c*d, see _carried_d)
+        "carried-by-full-matrix": f"implies({_has('components[0]')}, anchor_name in anchor_data and " + _first("components[0]", "anchor_data[anchor_name] == " + _carried_d("components[0]", "{a}")) + ")",
         "nothing-else-changes": _OTHERS.format(names="anchor_name"),
         "absent-anchor-adds-nothing": f"implies(not {_has('components[0]')} and anchor_name not in old(anchor_data), anchor_name not in anchor_data)",
     },
     canaries={"translation-only": f"implies({_has('components[0]')}, " + _first("components[0]", "anchor_data[anchor_name] == ({a}.x + components[0].t_dx, {a}.y + components[0].t_dy)") + ")"},
     locals={"anchors": List(Tuple(Ref("C15_Anchor"), Ref("C15_AComponent")))},
-    loops=_gad_loops({"nothing-found-yet": "len(anchors) == 0"}),
+    # fm: position of the anchor that was found (ghost witness for the ∃ of the postcondition), -1 while nothing was found
+    ghost_vars={"fm": (INT, "-1")},
+    ghost={"anchors.append((anchor, component))": ["fm = mi"]},
+    hints={
+        "anchors.append((anchor, component))": [f"anchor == {_A0}[mi] and anchor.name == anchor_name"],
+        "anchor_data[anchor.name] = t.transformPoint((anchor.x, anchor.y))": [
+            f"0 <= fm and fm < len({_A0}) and anchor == {_A0}[fm] and anchor.name == anchor_name and component == components[0]",
+            f"all({_A0}[q].name != anchor_name for q in range(fm))",
+            "anchor_data[anchor_name] == " + _carried("components[0]", f"{_A0}[fm]"),  # the arithmetic: transformPoint = full affine map
+            "anchor_data[anchor_name] == " + _carried_d("components[0]", f"{_A0}[fm]"),  # ... and the same through the symbol dot2
+        ],
+    },
+    loops={"for anchor in glyphSet[component.baseGlyph].anchors": Loop(index="mi", invariants={
+        "none-before": f"all({_AS}[q].name != anchor_name for q in range(mi))",
+        "nothing-found-yet": "len(anchors) == 0 and fm == -1",
+    })},
 )
 
 # (b) ANY number of base components.  The numbered ligature anchors (name_1, name_2, ... when several bases carry the anchor) need
@@ -545,12 +572,6 @@ class _ProbeName(Val):
 
 
 _PROBE = _ProbeName(STR, z3.String("c15_probe_name"))
-
-
-def _carried_d(c, a):
-    """_carried written with the symbol dot2 (contracts/c02.py: dot2(a, b, c, d) = a*b + c*d; a product under a quantifier makes the
-    solvers unreliable, so the quantified clause carries the symbol and the arithmetic is done once, at the hint, on ground terms)"""
-    return f"(dot2({c}.t_xx, {a}.x, {c}.t_yx, {a}.y) + {c}.t_dx, dot2({c}.t_xy, {a}.x, {c}.t_yy, {a}.y) + {c}.t_dy)"
 
 
 _MOVED_TO = "any(a.name == {k} and " + _HASMARK.format(a="a") + " and anchor_data[{k}] == " + _carried_d("component", "a") + " for a in glyphSet.glyphs[component.baseGlyph].anchors)"
